@@ -111,8 +111,12 @@ func Discharge(o *Obligation, timeoutS int, allSolvers bool) *Result {
 			}
 		}
 	}
-	// second attempt: the abstracted query (control-flow skeleton + the heap arrays of the goal); unsat is conclusive
-	if o.Expect == "unsat" {
+	// second attempt: the abstracted query (control-flow skeleton + the heap arrays of the goal; unsat is conclusive) and
+	// the full query with the short budget, run side by side: whichever decides first wins, so that an abstraction that does
+	// not help costs no waiting time
+	stage1Done := false
+	var stage1Ans, stage1Out string
+	if o.Expect == "unsat" && o.Kind != "cover" {
 		if aq, ok := o.AbstractQuery(Prelude); ok {
 			if af, err := os.CreateTemp(WorkDir, "a*.smt2"); err == nil {
 				af.WriteString(aq)
@@ -124,11 +128,44 @@ func Discharge(o *Obligation, timeoutS int, allSolvers bool) *Result {
 				if to > 5 {
 					to = 5
 				}
-				ans, _, secs := runSolver(Solvers[0], to, af.Name())
+				short := timeoutS
+				if short > 4 {
+					short = 4
+				}
+				type part struct {
+					abs      bool
+					ans, out string
+				}
+				ctx, cancel := context.WithCancel(context.Background())
+				ch := make(chan part, 2)
+				t0 := time.Now()
+				go func() {
+					a, o2, _ := runSolverCtx(ctx, Solvers[0], to, af.Name())
+					ch <- part{true, a, o2}
+				}()
+				go func() {
+					a, o2, _ := runSolverCtx(ctx, Solvers[0], short, f.Name())
+					ch <- part{false, a, o2}
+				}()
+				decided := false
+				for k := 0; k < 2 && !decided; k++ {
+					pr := <-ch
+					if pr.abs {
+						if pr.ans == "unsat" {
+							r.Status, r.Solver, r.Answer = "discharged", Solvers[0].Name+"/abstracted", pr.ans
+							decided = true
+						}
+					} else {
+						stage1Done, stage1Ans, stage1Out = true, pr.ans, pr.out
+						if pr.ans == "unsat" || pr.ans == "sat" {
+							decided = true
+						}
+					}
+				}
+				cancel()
+				r.Seconds += time.Since(t0).Seconds()
 				os.Remove(af.Name())
-				r.Seconds += secs
-				if ans == "unsat" {
-					r.Status, r.Solver, r.Answer = "discharged", Solvers[0].Name+"/abstracted", ans
+				if r.Status == "discharged" {
 					return r
 				}
 			}
@@ -173,10 +210,16 @@ func Discharge(o *Obligation, timeoutS int, allSolvers bool) *Result {
 	if short > 4 {
 		short = 4
 	}
-	ans, out, secs := runSolver(Solvers[0], short, f.Name())
-	r.Seconds += secs
-	if finish(Solvers[0], ans, out) {
-		return r
+	if stage1Done {
+		if finish(Solvers[0], stage1Ans, stage1Out) {
+			return r
+		}
+	} else {
+		ans, out, secs := runSolver(Solvers[0], short, f.Name())
+		r.Seconds += secs
+		if finish(Solvers[0], ans, out) {
+			return r
+		}
 	}
 	// stage 2: race the whole portfolio with the full budget; the first definite answer wins
 	type answer struct {
